@@ -22,8 +22,11 @@ Record prefix_row := mkP {
 Record export_row := mkE {
   e_mod : string; e_field : string; e_getter : string; e_reads : list (Z * bool) }.
 
-(* InitGenesis: a keeper setter call, the fields its arguments derive from, the prefixes it writes *)
+(* InitGenesis: a keeper setter call (in source order), the fields its arguments derive from, the
+   prefixes it writes, and what happens when the setter returns an error: 0 it cannot (no non-nil
+   error return), 1 InitGenesis returns - everything after it is skipped, 2 the item is dropped *)
 Record import_row := mkI {
-  i_mod : string; i_setter : string; i_fields : list string; i_writes : list Z; i_arg : argkind }.
+  i_mod : string; i_setter : string; i_fields : list string; i_writes : list Z; i_arg : argkind;
+  i_guard : Z }.
 
 Record unrec_row := mkU { u_mod : string; u_what : string }.
